@@ -607,8 +607,8 @@ func childC19(res *childResult, sc string, n int, seed int64, trace bool) {
 	go func() { wg.Wait(); close(done) }()
 	select {
 	case <-done:
-	case <-time.After(100 * time.Second):
-		res.Fails = append(res.Fails, "goroutines did not finish within 100 s (deadlock?)")
+	case <-time.After(600 * time.Second):
+		res.Fails = append(res.Fails, "goroutines did not finish within 600 s (deadlock?)")
 	}
 	if trace {
 		res.Traces = initTraces(hookStop(), res)
@@ -688,7 +688,7 @@ func runC19(c *C) {
 	check := func(bin, label, sc string, n int, seed int64, race bool) {
 		spec := fmt.Sprintf("c19:%s:%d:%d", sc, n, seed)
 		in := map[string]any{"child": spec, "binary": label, "replay": "VERIF_CONC_CHILD=" + spec + " " + bin}
-		res, stderr, err := runChild(bin, spec, 150*time.Second)
+		res, stderr, err := runChild(bin, spec, 900*time.Second)
 		if race {
 			if rep := raceReport(stderr); rep != "" {
 				in["report"] = rep
@@ -816,7 +816,7 @@ func runC19(c *C) {
 		for _, sc := range []string{"desc", "types", "legacy"} {
 			for _, n := range []int{4, 16, 64} {
 				spec := fmt.Sprintf("c19trace:%s:%d:%d", sc, n, c.Seed)
-				res, stderr, err := runChild(v.Hooks, spec, 200*time.Second)
+				res, stderr, err := runChild(v.Hooks, spec, 900*time.Second)
 				if res == nil {
 					c.Fail(vh.Failure{Kind: "panic", What: fmt.Sprintf("C19 trace child failed: %v %s", err, tail(stderr, 800)), Input: map[string]any{"child": spec}})
 					continue
